@@ -299,12 +299,13 @@ theorem fold_int_to_float_model {f : IntTy} (hf : f.Arith) (sz : Nat) {v : Int} 
   have h1 : ¬ (Ty.flt sz = Ty.bool) := by simp
   simp only [castConst, if_neg h1, tyOf_isInt, Ty.isFlt, and_self, if_true, hval]
 
-/-- floating → int: rejected (`error`) outside `[-2^63, 2^63)` resp. `[0, 2^64)` (NaN fails both
-comparisons), otherwise the truncated value is normalised to the target type. -/
+/-- floating → int: rejected (`error`) outside `[-2^63, 2^63)` resp. `(-1, 2^64)` — exactly the
+values whose integral part is representable in 64 bits (6.3.1.4p1; NaN fails both comparisons) —
+otherwise the truncated value is normalised to the target type. -/
 theorem fold_float_to_int_model (fsz : Nat) {t : IntTy} (ht : t.Arith) (l : Nat) :
     castConst ops (.flt fsz) (tyOf t) l =
       if (if t.signed then ops.le (ops.ofInt (-(2 ^ 63))) (ops.ofBits l) && ops.lt (ops.ofBits l) (ops.ofInt (2 ^ 63))
-          else ops.le (ops.ofInt 0) (ops.ofBits l) && ops.lt (ops.ofBits l) (ops.ofInt (2 ^ 64))) = true
+          else ops.lt (ops.ofInt (-1)) (ops.ofBits l) && ops.lt (ops.ofBits l) (ops.ofInt (2 ^ 64))) = true
       then .const (tyOf t) (repr64 t (wrap t (ops.toInt (ops.ofBits l))))
       else .error := by
   rw [tyOf_arith ht]
